@@ -83,8 +83,8 @@ var (
 	numCPU  = 1
 	ticker  *Ticker
 	// knobs
-	SnapshotEvery uint64 = 100_000
-	CleanupMinFree int64 = 16 * 1024 * 1024
+	SnapshotEvery  uint64 = 100_000
+	CleanupMinFree int64  = 16 * 1024 * 1024
 )
 
 //go:norace
